@@ -984,10 +984,10 @@ func (e *v16Engine) oracle(cfg v16Cfg, sc v16Script, sp v16Spec, o v16Obs, rep i
 	authAccepted := len(raw) >= 4 && raw[0] == 5 && raw[1] == 2 && raw[2] == 1 && raw[3] == 0
 	if credsConfigured {
 		if outboundSeen && !cfg.configured(sp.auth) {
-			e.out.Fail("C16:auth:outbound-without-auth", fmt.Sprintf("outbound action (target connection=%v, udp listener=%v) although the client did not present a configured username/password (presented: %v)", o.dialled, o.listened, sp.auth), input)
+			e.out.Fail("C16:auth:outbound-without-auth", fmt.Sprintf("outbound action (target connection=%v, udp listener=%v) although the client did not present a configured username/password (presented: %s)", o.dialled, o.listened, v16Quote(sp.auth)), input)
 		}
 		if authAccepted && !cfg.configured(sp.auth) {
-			e.out.Fail("C16:auth:wrong-credentials-accepted", fmt.Sprintf("authentication status 00 for %v", sp.auth), input)
+			e.out.Fail("C16:auth:wrong-credentials-accepted", fmt.Sprintf("authentication status 00 for %s, which is not byte for byte a configured pair", v16Quote(sp.auth)), input)
 		}
 	}
 	if credsConfigured && o.udpThird {
@@ -1328,6 +1328,13 @@ func TestVerifC16(t *testing.T) {
 			for b := 0; b <= len(s); b++ {
 				add(s[:b], s[b:])
 			}
+			// near misses of the pair itself: only the byte-exact pair may authenticate
+			for _, v := range v16NearMisses(c.expV) {
+				add(c.expK, v)
+			}
+			for _, v := range v16NearMisses(c.expK) {
+				add(v, c.expV)
+			}
 			for _, d := range cfg.creds {
 				if d != c {
 					add(c.expK, d.expV)
@@ -1439,6 +1446,48 @@ func TestVerifC16(t *testing.T) {
 	v16PinCases(out)
 	out.Stat("sessions", count)
 	out.Stat("udp_relays_confirmed", e.relays)
+}
+
+// strings that differ slightly from x: trailing / leading NULs, trailing space, one byte shorter or
+// longer, case flipped, empty, all-NUL of the same length (and of length 1, 255), padded to the
+// 255-byte maximum, bytes >= 0x80
+func v16NearMisses(x string) []string {
+	flip := []byte(x)
+	for i, c := range flip {
+		switch {
+		case c >= 'a' && c <= 'z':
+			flip[i] = c - 32
+		case c >= 'A' && c <= 'Z':
+			flip[i] = c + 32
+		}
+	}
+	high := []byte(x)
+	if len(high) > 0 {
+		high[len(high)-1] |= 0x80
+	}
+	pad := func(c byte) string {
+		if len(x) >= 255 {
+			return x
+		}
+		return x + strings.Repeat(string([]byte{c}), 255-len(x))
+	}
+	r := []string{
+		x + "\x00", x + "\x00\x00", x + strings.Repeat("\x00", 7), "\x00" + x, x + " ", " " + x, x + "\n",
+		x + "x", x + "\x80", x + "\xff", string(flip), string(high), "",
+		strings.Repeat("\x00", len(x)), "\x00", strings.Repeat("\x00", 255), pad(0), pad(' '), pad(0xff),
+		strings.ToUpper(x), x + x,
+	}
+	if len(x) > 0 {
+		r = append(r, x[:len(x)-1], x[1:], x[:len(x)-1]+"\x00", string(append([]byte(x[:len(x)-1]), x[len(x)-1]^1)))
+	}
+	return r
+}
+
+func v16Quote(p *[2]string) string {
+	if p == nil {
+		return "nothing"
+	}
+	return fmt.Sprintf("user %q password %q", p[0], p[1])
 }
 
 func v16PinCases(out *vOut) {
